@@ -11,6 +11,7 @@ import (
 	"errors"
 	"fmt"
 	"runtime/debug"
+	"slices"
 	"sort"
 	"strings"
 	"testing"
@@ -93,13 +94,16 @@ const otherFile = `groups:
     expr: sum(foo) by (instance)
 `
 
+// keys: the problems as a sorted set.  The same check can be enabled twice for one rule (two rule {} blocks
+// with an identical definition plus a rule { enable = [...] } block); pint's Summary drops a report that is
+// equal to one it already holds, so multiplicity is not observable.
 func keys(ps []lint.TaggedProblem) []string {
 	out := make([]string, 0, len(ps))
 	for _, p := range ps {
 		out = append(out, p.Key())
 	}
 	sort.Strings(out)
-	return out
+	return slices.Compact(out)
 }
 
 // expected computes P(B) minus the slice.
@@ -188,6 +192,11 @@ func genConfig(t *rapid.T, allowLocked bool) (string, map[string]bool) {
 	locked := map[string]bool{}
 	used := map[string]bool{}
 	n := rapid.IntRange(2, 6).Draw(t, "nblocks")
+	type twiceBlock struct {
+		hcl    string
+		locked bool
+	}
+	var twice []twiceBlock
 	for i := 0; i < n; i++ {
 		bl := rapid.SampledFrom(blockPool).Draw(t, fmt.Sprintf("block%d", i))
 		if used[bl.reporter] {
@@ -201,6 +210,20 @@ func genConfig(t *rapid.T, allowLocked bool) (string, map[string]bool) {
 			b.WriteString("  locked = true\n")
 		}
 		b.WriteString("  " + bl.hcl + "\n}\n")
+		// the very same check defined once more in a second block, with its own locked flag: pint runs it once,
+		// and a rule-level comment must not switch it off when either copy is locked
+		if rapid.IntRange(0, 3).Draw(t, fmt.Sprintf("twice%d", i)) == 0 {
+			lk2 := allowLocked && rapid.IntRange(0, 1).Draw(t, fmt.Sprintf("locked%db", i)) == 0
+			locked[bl.reporter] = lk || lk2
+			twice = append(twice, twiceBlock{bl.hcl, lk2})
+		}
+	}
+	for _, tb := range twice {
+		b.WriteString("rule {\n")
+		if tb.locked {
+			b.WriteString("  locked = true\n")
+		}
+		b.WriteString("  " + tb.hcl + "\n}\n")
 	}
 	// rule { enable = [...] } blocks (optionally with the check disabled globally): a check switched on
 	// this way must still obey rule-level control comments
